@@ -70,6 +70,24 @@ class NotifyFieldUpdates(Contract):
 
     nodes = self
 
+    # The dispatcher must not change the notification setting around the
+    # handlers it calls: a mutation a handler makes is an ordinary mutation
+    # ("for every mutating call that returns normally while notifications are
+    # enabled ...").  Entering any flags scope here is recorded.
+    from pyglove.core.symbolic import flags as _flags
+
+    class _Scope:
+      pass
+
+    def scope_h(name):
+      def h(interp, args, kwargs, frame):
+        interp.path.event('scope', name, [interp.resolve(a) for a in args])
+        return SObj(_Scope, {}, name='scope')
+      return h
+    for _n in ('notify_on_change', 'enable_type_check', 'allow_partial', 'as_sealed', 'allow_writable_accessors'):
+      policy.handlers[id(getattr(_flags, _n))] = scope_h(_n)
+    policy.handlers[('with', _Scope)] = lambda interp, mgr, frame: (None, lambda exc: False)
+
     def on_change(interp, frame, args, kwargs):
       interp.path.event('on_change', 'call', (interp.resolve(args[0]), interp.resolve(args[1])))
       return None
@@ -186,6 +204,23 @@ class NotifyFieldUpdates(Contract):
       n = n.fields['_sym_parent']
     return False
 
+  def trace_handlers_run_under_the_callers_settings(self, events, outcome, interp, env):
+    return not [e for e in events if e.kind == 'scope']
+
+  def small_models(self):
+    from pyvc.contracts import Model
+    yield Model({}, {})
+
+  def replay(self, obligation, m):
+    if 'callers_settings' not in obligation:
+      return dict(outcome='not-concretizable', detail='abstract ancestor chain')
+    seen = []
+    b2 = pg.Dict(v=1, onchange_callback=lambda updates: seen.append(sorted(str(k) for k in updates)))
+    a = pg.Dict(v=1, onchange_callback=lambda updates: b2.rebind(v=2))
+    a.rebind(v=5)
+    bad = [] if seen == [['v']] else [f'a mutation made by a change handler (b.rebind(v=2) from a\'s callback) delivered {seen} to b, want one event for v']
+    return dict(outcome='reproduced' if bad else 'not-reproduced', detail='; '.join(bad) or 'nested mutation notified')
+
   def trace_caches_reset_before_handler(self, events, outcome, interp, env):
     reset = {}
     for e in events:
@@ -223,7 +258,8 @@ from contracts import c08_protect as _c08   # noqa: E402  pylint: disable=wrong-
 
 DELEGATES = ('pyglove.core.symbolic.list:List.extend', 'pyglove.core.symbolic.list:List.clear',
              'pyglove.core.symbolic.list:List.append', 'pyglove.core.symbolic.list:List.insert',
-             'pyglove.core.symbolic.dict:Dict.update', 'pyglove.core.symbolic.dict:Dict.clear')
+             'pyglove.core.symbolic.dict:Dict.update', 'pyglove.core.symbolic.dict:Dict.clear',
+             'pyglove.core.symbolic.dict:Dict.__delitem__', 'pyglove.core.symbolic.dict:Dict.__setitem__')
 
 
 class _Dispatch(_c08._Dom):
@@ -310,12 +346,17 @@ _NATIVE_OPS = {
     'Dict.pop': lambda r: r.d.pop('a'), 'Dict.popitem': lambda r: r.d.popitem(),
     'Dict.setdefault': lambda r: r.d.setdefault('zz', 5), 'Dict.update': lambda r: r.d.update({'a': 5}, b=6),
     'Object.__setattr__': lambda r: setattr(r.o, 'x', 5),
+    'Functor.__delattr__': lambda r: delattr(r.f, 'x'),
 }
 
 
 def _dispatch_replay(self, obligation, m):
   class _O(pg.Object):
     x: pg.typing.Any() = 0
+
+  @pg.functor()
+  def _F(x=1):
+    return x
   key = self.name.split('/')[0]
   op = _NATIVE_OPS.get(key)
   if op is None:
@@ -324,7 +365,7 @@ def _dispatch_replay(self, obligation, m):
   for k_op, one in enumerate(op if isinstance(op, tuple) else (op,)):
     for enabled in (True, False):
       calls = []
-      r = pg.Dict(l=pg.List([1, 2]), d=pg.Dict(a=1), o=_O(), onchange_callback=lambda updates: calls.append(sorted(str(k) for k in updates)))
+      r = pg.Dict(l=pg.List([1, 2]), d=pg.Dict(a=1), o=_O(), f=_F(x=3), onchange_callback=lambda updates: calls.append(sorted(str(k) for k in updates)))
       r.sym_nondefault(); r.sym_missing()
       with pg.notify_on_change(enabled), pg.allow_writable_accessors(True):
         one(r)
@@ -365,3 +406,5 @@ _dispatch('DispatchDictPopItem', pg.Dict, 'popitem', lambda b: {})
 _dispatch('DispatchDictSetDefault', pg.Dict, 'setdefault', _dany('key', 'default'))
 _dispatch('DispatchDictUpdate', pg.Dict, 'update', lambda b: dict(other={'k0': b.any('v0')}, k1=b.any('v1')))
 _dispatch('DispatchObjectSetAttr', pg.Object, '__setattr__', lambda b: dict(name='x', value=b.any('value')))
+# unbinding a functor argument (`del f.x`) goes through the attribute dict's own mutator
+_dispatch('DispatchFunctorDelAttr', pg.symbolic.Functor, '__delattr__', lambda b: dict(name='x'))
